@@ -96,7 +96,7 @@ def mutex_case(draw, tier):
 
 
 def c03_parts(tier):
-    return [{"name": "mutex", "strategy": mutex_case(tier), "nsched": T(tier, 32, 192), "args": ["--tso", T(tier, 0, 1)]}]
+    return [{"name": "mutex", "strategy": mutex_case(tier), "nsched": T(tier, 32, 192), "args": ["--tso", 1]}]
 
 
 SPECS = {}
@@ -139,6 +139,7 @@ def sem_case(draw, tier):
         # a semaphore that already holds many units: value just below a power of two the posts then cross
         inits[0] = 2 ** draw(st.sampled_from([8, 15, 16, 24, 30])) - draw(ints(0, 3))
     nf = draw(ints(2, T(tier, 6, 10)))
+    cycles = draw(ints(0, 3)) == 0   # short-lived semaphores are initialised, used and destroyed in between
     uposts, uwaits, paired = [0] * ns, [0] * ns, [False] * ns
     fibers = []
     for _ in range(nf):
@@ -149,8 +150,11 @@ def sem_case(draw, tier):
             ops.append(op("spost", s))
             uposts[s] += 1
         for _ in range(draw(ints(0, T(tier, 5, 10)))):
-            k = draw(st.sampled_from(["swaitpost", "swaitpost", "strywait", "swait", "yield", "work"]))
+            k = draw(st.sampled_from(["swaitpost", "swaitpost", "strywait", "swait", "yield", "work"] + (["semcycle"] if cycles else [])))
             s = draw(ints(0, ns - 1))
+            if k == "semcycle":
+                ops.append(op("semcycle", 0, draw(ints(0, 2)), draw(ints(0, 1))))
+                continue
             if k == "swait":
                 ops.append(op("swait", s))
                 uwaits[s] += 1
@@ -175,7 +179,7 @@ def sem_case(draw, tier):
     cfg = {"nsem": ns}
     for s in range(ns):
         cfg["sem_init%d" % s] = inits[s]
-    classes = ["threads=%d" % threads, "late_poster" if poster else "no_late_poster", "value_near_2^k" if big else "small_value"]
+    classes = ["threads=%d" % threads, "late_poster" if poster else "no_late_poster", "value_near_2^k" if big else "small_value"] + (["init_destroy_cycles"] if cycles else [])
     crowd = {}
     if draw(ints(0, 29)) == 0:
         # any number of fibers blocked on one semaphore
@@ -319,10 +323,14 @@ def cond_case(draw, tier):
             unheld_any |= not held
             ops.append(op(draw(st.sampled_from(["csignal", "csignal", "cbcast"])), held))
         fibers.append(ops)
+    trylockers = draw(st.sampled_from([0, 0, 0, 1, 2]))
+    for _ in range(trylockers):
+        # somebody polls the condition's mutex with trylock while waits release and re-acquire it
+        fibers.append(small_ops(draw, 1) + [op("ctrylock", draw(ints(1, 12)), draw(ints(0, 3)))])
     order = draw(st.permutations(list(range(len(fibers)))))
     fibers = [fibers[i] for i in order]
     fibers.append([op("ctl")])
-    classes = ["threads=%d" % threads]
+    classes = ["threads=%d" % threads] + (["mutex_polled_with_trylock"] if trylockers else [])
     if held_any:
         classes.append("signal_holding_mutex")
     if unheld_any:
@@ -374,6 +382,10 @@ def join_case(draw, tier, allow_detach_blocked=True):
     fibers = targets + actors
     classes = ["threads=%d" % threads] + sorted(set(scens))
     cfg = {"allow_freed": 1} if "contend_finished" in scens else {}
+    if draw(ints(0, 3)) == 0:
+        # the targets return values a library might use as in-band markers (NULL, -1, -2, -3, 1, 2) instead of distinct tokens
+        cfg["ret_special"] = draw(ints(1, 6))
+        classes.append("special_return_values")
     return {"harness": "join", "threads": threads, "cfg": cfg, "fibers": fibers, "classes": classes}
 
 
@@ -534,6 +546,14 @@ def yield_case(draw, tier):
         pos = draw(ints(0, len(fibers[by])))
         fibers[by].insert(pos, op("spawn", d))
     classes = ["threads=%d" % threads, "fibers>=3" if nf >= 3 else "fibers=2", "deferred_spawn" if deferred else "all_at_start"]
+    if draw(ints(0, 5)) == 0:
+        # other library calls made between the yields: one fiber holds a fiber spinlock across a few yields, others try it
+        h = draw(ints(0, nf - 1))
+        fibers[h].insert(draw(ints(0, len(fibers[h]))), op("sphold", draw(ints(1, 3))))
+        for _ in range(draw(ints(1, 3))):
+            t2 = draw(ints(0, nf - 1))
+            fibers[t2].insert(draw(ints(0, len(fibers[t2]))), op("sptry"))
+        classes.append("spinlock_trylock_between_yields")
     if n_initial >= 3 and draw(ints(0, 5)) == 0:
         # a fiber that keeps yielding while another fiber is blocked in fiber_join on it
         t = draw(ints(1, n_initial - 1))
@@ -648,7 +668,16 @@ def mixed_case(draw, tier, storm=False):
     # targets must keep the indexes assigned above: extra fibers follow in order
     allf = fibers + extra
     classes = ["threads=%d" % threads, "storm" if storm else "mixed"] + sorted(k for k in kinds_used if k in ("barrier", "channel", "join", "cond", "msig", "sleep", "fd"))
-    return {"harness": "mixed", "threads": threads, "cfg": cfg, "fibers": allf, "classes": classes}
+    case = {"harness": "mixed", "threads": threads, "cfg": cfg, "fibers": allf, "classes": classes}
+    if storm and draw(ints(0, 9)) == 0:
+        # a burst of runnable fibers created at once on one kernel thread (backlog of one run queue up to tens of thousands;
+        # whether it really piles up depends on how fast the other threads steal: several schedules each)
+        n = draw(st.sampled_from([300, 2100, 20000, 40000]))
+        fibers[0].insert(0, op("crowd", n, draw(ints(1, 2))))
+        classes.append("burst_" + crowd_class(n))
+        case.update(crowd_limits(n))
+        case["max_sched"] = 8
+    return case
 
 
 def rt_spec(pid, parts_fn, examples, rule):
@@ -657,12 +686,13 @@ def rt_spec(pid, parts_fn, examples, rule):
 
 def one_part(name, strat_fn, q_sched=32, t_sched=160, tso_thorough=1):
     def parts(tier):
-        return [{"name": name, "strategy": strat_fn(tier), "nsched": T(tier, q_sched, t_sched), "args": ["--tso", T(tier, 0, tso_thorough)]}]
+        return [{"name": name, "strategy": strat_fn(tier), "nsched": T(tier, q_sched, t_sched), "args": ["--tso", tso_thorough]}]
     return parts
 
 
 SCHED_TXT = ("each program runs under 32 (quick) / 160 (thorough) generated schedules: 1 fair baseline, then random walk p in {1/4..1/256}, PCT depth 1-5 and "
-             "targeted-delay PCT whose change points fall on accesses to the object under test; distinct = distinct (program, decision list). ")
+             "targeted-delay PCT whose change points fall on accesses to the object under test, stalls of one or two kernel threads at one of their accesses; about a third of the "
+             "schedules run with x86-TSO store buffers (not the descriptor, sleep and yield harnesses); distinct = distinct (program, decision list). ")
 
 SPECS["C03"] = rt_spec("C03", one_part("mutex", mutex_case), {"quick": 30000, "thorough": 150000},
     "Hypothesis generates fiber programs over 1-2 mutexes (lock/trylock sections whose bodies read-modify-write a plain cell and may yield, plus yield/work) "
@@ -736,15 +766,15 @@ def chan_after_msig_case(draw, tier):
 
 
 def c11_parts(tier):
-    return [{"name": "chan", "strategy": chan_case(tier), "nsched": T(tier, 32, 160), "args": ["--tso", T(tier, 0, 1)], "share": 0.5},
-            {"name": "mchan", "strategy": mchan_case(tier), "nsched": T(tier, 32, 160), "args": ["--tso", T(tier, 0, 1)], "share": 0.3},
-            {"name": "chan_after_msig", "strategy": chan_after_msig_case(tier), "nsched": T(tier, 32, 160), "args": ["--tso", T(tier, 0, 1)], "share": 0.2}]
+    return [{"name": "chan", "strategy": chan_case(tier), "nsched": T(tier, 32, 160), "args": ["--tso", 1], "share": 0.5},
+            {"name": "mchan", "strategy": mchan_case(tier), "nsched": T(tier, 32, 160), "args": ["--tso", 1], "share": 0.3},
+            {"name": "chan_after_msig", "strategy": chan_after_msig_case(tier), "nsched": T(tier, 32, 160), "args": ["--tso", 1], "share": 0.2}]
 SPECS["C11"] = rt_spec("C11", c11_parts, {"quick": 30000, "thorough": 150000},
     "bounded channel (2^1..2^4 slots, with signal and spinning), unbounded MPSC channel (with signal / spinning), single-producer channel: 1-4 senders (1 for SP), one receiver, "
     "1-12(30) messages per sender in bursts; multi channel: 1-4 senders, 1-3 receivers, capacity 2-8; " + SCHED_TXT + "Oracle: multiset(received) == multiset(sent), per-sender "
     "order, sends completed - receives begun <= capacity, nobody stranded at quiescence. Non-trivial = a receiver (or multi-channel sender) really blocked and was woken, or >= 2 kernel threads.")
 def c20_parts(tier):
-    return [{"name": "msig", "strategy": msig_case(tier), "nsched": T(tier, 32, 160), "args": ["--tso", T(tier, 0, 1)]}]
+    return [{"name": "msig", "strategy": msig_case(tier), "nsched": T(tier, 32, 160), "args": ["--tso", 1]}]
 SPECS["C09"] = rt_spec("C09", one_part("sleep", sleep_case, 24, 96, 0), {"quick": 30000, "thorough": 150000},
     "1-8(12) sleepers on 1-3(4) kernel threads through sleep/usleep/nanosleep/fiber_sleep with durations {0,1us,999us,1ms,4.999ms,5ms,7ms,3ms(shared),12ms,25ms,1s+1us,2s+999999us}, "
     "woken fibers scribble their stack and sleep again; virtual clock: g ticks per quiescence; 'backlog' class lets ticks pile up unread while fibers are busy; finite ticker fibers; "
@@ -755,8 +785,8 @@ SPECS["C10"] = rt_spec("C10", one_part("yield", yield_case, 8, 24, 0), {"quick":
     "Oracle from the hook trace: while a fiber is ready on a kernel thread, at most 2*(fibers+1)+2 other fibers are switched in there before it runs. "
     "Non-trivial = >= 3 simultaneously ready fibers and total yield budget >= 5x the bound.")
 def c01_parts(tier):
-    return [{"name": "mixed", "strategy": mixed_case(tier), "nsched": T(tier, 32, 160), "args": ["--tso", T(tier, 0, 1)], "share": 0.8},
-            {"name": "storm", "strategy": mixed_case(tier, storm=True), "nsched": T(tier, 32, 160), "args": ["--tso", T(tier, 0, 1)], "share": 0.2}]
+    return [{"name": "mixed", "strategy": mixed_case(tier), "nsched": T(tier, 32, 160), "args": ["--tso", 1], "share": 0.8},
+            {"name": "storm", "strategy": mixed_case(tier, storm=True), "nsched": T(tier, 32, 160), "args": ["--tso", 1], "share": 0.2}]
 SPECS["C01"] = rt_spec("C01", c01_parts, {"quick": 30000, "thorough": 150000},
     "mixed programs: random parallel composition of terminating gadgets over mutex, semaphore, rwlock, spinlock, barrier, channel+signal, join/tryjoin/detach, cond, multi-signal, "
     "virtual-time sleeps, yield; plus create/yield storms; " + SCHED_TXT + "Oracle: running-on map fed by the switch hooks (target of every switch must be SAVED, destroy only of a SAVED "
@@ -987,10 +1017,10 @@ def hazard_case(draw, tier):
 
 def c02_parts(tier):
     return [dict(ds_part("deque", deque_case)(tier), share=0.5),
-            {"name": "storm", "strategy": mixed_case(tier, storm=True), "nsched": T(tier, 32, 160), "args": ["--tso", T(tier, 0, 1)], "share": 0.15},
-            {"name": "mixed", "strategy": mixed_case(tier), "nsched": T(tier, 32, 160), "args": ["--tso", T(tier, 0, 1)], "share": 0.2},
+            {"name": "storm", "strategy": mixed_case(tier, storm=True), "nsched": T(tier, 32, 160), "args": ["--tso", 1], "share": 0.15},
+            {"name": "mixed", "strategy": mixed_case(tier), "nsched": T(tier, 32, 160), "args": ["--tso", 1], "share": 0.2},
             # join/tryjoin/detach hand-shakes: the paths on which a waker polls with yield (and may be stolen) before it makes the peer runnable
-            {"name": "join", "strategy": join_case(tier), "nsched": T(tier, 32, 160), "args": ["--tso", T(tier, 0, 1)], "share": 0.15}]
+            {"name": "join", "strategy": join_case(tier), "nsched": T(tier, 32, 160), "args": ["--tso", 1], "share": 0.15}]
 SPECS["C02"] = Spec("C02", "runner_rt", c02_parts, {"quick": 30000, "thorough": 150000},
     rule=("(a) one owner thread with generated push bursts (1..520, crossing the 2^8->2^9->2^10 growth) and pops against 1-3 thieves stealing a generated number of times; classes: "
           "single-element owner/thief races, growth under steal, mixed; " + DS_SCHED + "Oracle: every value handed out was pushed, at most once; after a final owner drain every pushed value "
@@ -1021,7 +1051,7 @@ SPECS["C17"] = ds_spec("C17", lambda tier: [ds_part("workq", workq_case)(tier)],
     "call of the get_work that said EMPTY] are pairwise disjoint; every item handed out exactly once; nothing left queued when all threads are done. Non-trivial = a push was QUEUED while a worker was active.")
 def c20_parts(tier):
     return [dict(ds_part("dwcas", dwcas_case)(tier), share=0.6),
-            {"name": "msig", "strategy": msig_case(tier), "nsched": T(tier, 32, 160), "args": ["--tso", T(tier, 0, 1)], "share": 0.4}]
+            {"name": "msig", "strategy": msig_case(tier), "nsched": T(tier, 32, 160), "args": ["--tso", 1], "share": 0.4}]
 SPECS["C20"] = Spec("C20", "runner_rt", c20_parts, {"quick": 30000, "thorough": 150000},
     rule=("(a) LIFO with push / pop / pop-and-immediately-repush-the-same-node by 2-4 threads, dist FIFO with one pusher and 1-3 poppers (RETRY is a no-op), flushable stack with push / "
           "lifo_flush / fifo_flush; the cmpxchg16b hook makes the snapshot->CAS window a scheduling point; " + DS_SCHED + "Oracle: linearizability against LIFO / FIFO / 'flush returns "
@@ -1107,7 +1137,16 @@ def io_case(draw, tier, shapes=("streams", "streams", "streams", "accept", "badf
                 dw = draw(ints(0, 5)) == 0
                 if dw:
                     classes.append("msg_dontwait")
-                r.append(op("rdeof", a, 0, draw(ints(0, 4)) | (_chunk_for(draw, total) << 4) | ((1 if dw else 0) << 12)))
+                if not shared_fd and total > 5000 and not any(o[0] == "nbmode" for o in r + w) and draw(ints(0, 3)) == 0:
+                    # the reader gives up early: reads a part and closes its end while the writer is (or will be) blocked on a full
+                    # buffer - the writer must come back with an error
+                    part = draw(st.sampled_from([1, 500, 5000]))
+                    r.append(op("rd", a, part, draw(ints(0, 1)) | (_chunk_for(draw, part) << 4)))
+                    r.extend(small_ops(draw, 2))
+                    r.append(op("rclose", a))
+                    classes.append("reader_closes_early")
+                else:
+                    r.append(op("rdeof", a, 0, draw(ints(0, 4)) | (_chunk_for(draw, total) << 4) | ((1 if dw else 0) << 12)))
                 fibers.append(w)
                 fibers.append(r)
     elif shape == "accept":
@@ -1171,6 +1210,41 @@ for _p, _h in (("C02", "deque"), ("C13", "mpmc"), ("C14", "hazard"), ("C15", "qu
     SPECS[_p].fuzz_harness = _h
     SPECS[_p].build = "rt fuzz"
     SPECS[_p].technique += "; plus a coverage-guided libFuzzer campaign over the same harness (bytes -> case + schedule), candidates re-executed by the deterministic runner"
+
+# classes added after the seeding rounds (DESIGN 8.6); appended to the rule text that goes into the evidence files
+COMMON_CLASSES = (" One case in five initialises the objects under test in memory that is not zero (byte patterns), one in six asks fiber_create for another stack size; "
+                  "malloc memory holds a byte pattern or the addresses of recently allocated blocks, depending on the schedule seed.")
+EXTRA_RULE = {
+    "C01": "The descriptor gadget really transfers bytes (op iowr); bursts of up to 40 000 runnable fibers in the storms; ghost: a fiber is only ever pushed onto the run queue of the "
+           "kernel thread the pusher runs on, and only the owner writes 'bottom' of a run queue.",
+    "C02": "Whole-runtime part also: bursts of up to 40 000 runnable fibers created at once, join/tryjoin/detach programs; ghosts: owner-only push, single-writer monitor on 'bottom' of every run queue.",
+    "C03": "Any number of waiters: a crowd class (40 .. 70 000 further fibers running into a held mutex).",
+    "C04": "Both forms of join/tryjoin (with and without a place for the result); targets that return NULL, -1, -2, -3, 1, 2 instead of distinct tokens.",
+    "C05": "Optionally 1-2 fibers that poll the condition's mutex with trylock.",
+    "C06": "Semaphore values just below 2^8, 2^15, 2^16, 2^24, 2^30 that the posts then cross; crowds of 40 .. 70 000 fibers blocked on one semaphore; short-lived semaphores initialised, used and destroyed in between.",
+    "C07": "Any number of simultaneous read holds (40 .. 70 000, and 4095/4096/4097) and of readers queued behind a writer and admitted by one hand-off.",
+    "C08": "Also: soft descriptor limit below the hard one while the runtime starts and descriptors numbered above it; a reader that closes early under a blocked writer; fresh socketpairs that "
+           "reuse a descriptor number just given back; writer switched back to blocking mode; verdict kernel_thread_blocked when a call reaches the kernel on a descriptor that is in blocking "
+           "mode there and cannot complete at once.",
+    "C09": "Durations around 2^32 microseconds and far beyond (4294.967295 s .. 17180 s) through fiber_sleep, nanosleep and sleep, the virtual clock then advancing 50 000 - 400 000 ticks per quiescence.",
+    "C10": "Crowds of 40 .. 520 further yielders on the thread; a fiber that yields while another is blocked in fiber_join on it; fiber-spinlock lock/trylock calls between the yields; "
+           "second oracle, valid with any number of kernel threads: a fiber_yield that returns without a switch while program fibers sit in that thread's run queues (read from the deques) "
+           "counts as a bypass of each of them.",
+    "C11": "Receivers use the blocking receive or the try_receive entry points polled with yield.",
+    "C12": "Crowds of 40 .. 2100 further participants (the release loop then wakes more than 1024 fibers); barrier counter starting near 2^31 / 2^32.",
+    "C13": "Stalled-popper shapes continue until a recycled node is at the head again.",
+    "C14": "A thread releases only the slots it used, so slots a record was created with stay as they were.",
+    "C15": "Relaxed queue with up to 12 producer lanes spread over up to 5 threads.",
+    "C16": "Indices starting just below 2^8 .. 2^32; cases that use the waiting entry points push()/pop() with balanced counts; lockfree_ring_buffer_size never above the capacity.",
+    "C17": "Cases that start inside a worker session which has already handed out just under 2^8 .. 2^32 items.",
+    "C18": "Descriptor part biased to descriptors closed under a waiter and numbers reused afterwards.",
+    "C20": "The flushable stack is pushed through both mpmc_stack_push and mpmc_stack_push_timeout; reads let through inside the known-finding bracket are judged against known_findings.json.",
+}
+for _p, _t in EXTRA_RULE.items():
+    SPECS[_p].rule += " " + _t
+for _p in SPECS:
+    if _p != "C19":
+        SPECS[_p].rule += COMMON_CLASSES
 
 NOT_APPLICABLE = {}
 HOOK_COMMITS = ["0bef496"]
